@@ -75,6 +75,10 @@ for s_, Tf, W in (('f', 'float', 32), ('d', 'double', 64)):
     add('iround_' + s_, [(Tf, 1)], [('int32_t', 1)], 'o[0] = glm::iround(a[0]);', rep, 'x >= 0 (asserted by glm) and the nearest integer of x representable as int', known=[])
     add('uround_' + s_, [(Tf, 1)], [('uint32_t', 1)], 'o[0] = glm::uround(a[0]);', lambda i, W=W: [z3.Not(is_nan(i[0][0])), z3.fpGEQ(fpof(i[0][0]), FPV(0.0, W)), z3.fpLT(z3.fpRoundToIntegral(z3.RNA(), fpof(i[0][0])), FPV(2.0 ** 32, W))],
         'x >= 0 and the nearest integer of x representable as uint', known=[])
+    add('iroundv_' + s_, [(Tf, 3)], [('int32_t', 3)], 'stv(o, glm::iround(ldv<3,%s>(a)));' % Tf, lambda i, W=W: [h for x in i[0] for h in (z3.Not(is_nan(x)), z3.fpGEQ(fpof(x), FPV(0.0, W)), z3.fpLT(z3.fpRoundToIntegral(z3.RNA(), fpof(x)), FPV(2.0 ** 31, W)))],
+        'x >= 0 and the nearest integer of x representable as int (vector overload)')
+    add('uroundv_' + s_, [(Tf, 3)], [('uint32_t', 3)], 'stv(o, glm::uround(ldv<3,%s>(a)));' % Tf, lambda i, W=W: [h for x in i[0] for h in (z3.Not(is_nan(x)), z3.fpGEQ(fpof(x), FPV(0.0, W)), z3.fpLT(z3.fpRoundToIntegral(z3.RNA(), fpof(x)), FPV(2.0 ** 32, W)))],
+        'x >= 0 and the nearest integer of x representable as uint (vector overload)')
     add('wrap_' + s_, [(Tf, 1)], [(Tf, 4)], 'o[0] = glm::clamp(a[0]); o[1] = glm::repeat(a[0]); o[2] = glm::mirrorClamp(a[0]); o[3] = glm::mirrorRepeat(a[0]);')
     add('ulp_' + s_, [(Tf, 2)], [(Tf, 2), ('int64_t', 1)], 'o[0] = glm::nextFloat(a[0]); o[1] = glm::prevFloat(a[0]); o2[0] = glm::floatDistance(a[0], a[1]);', lambda i, W=W: [z3.Not(is_nan(x)) for x in i[0]] + [_dist(i[0][0], i[0][1]) < (1 << (W - 1))], 'non-NaN, ULP distance representable in the return type')
     add('fminmax_' + s_, [(Tf, 4)], [(Tf, 4)], 'o[0] = glm::fmin(a[0], a[1], a[2], a[3]); o[1] = glm::fmax(a[0], a[1], a[2]); o[2] = glm::fclamp(a[0], a[1], a[2]); o[3] = glm::smoothstep(a[0], a[1], a[2]);')
@@ -124,6 +128,9 @@ def _simd_unit(isa, flag):
     addS('a_fround', [('float', 4)], [('float', 4)] * 4, 'stv(o, glm::floor(%s(a))); stv(o2, glm::ceil(%s(a))); stv(o3, glm::round(%s(a))); stv(o4, glm::trunc(%s(a)));' % (AF, AF, AF, AF))
     addS('a_fmisc', [('float', 4)] * 2, [('float', 4)] * 4, 'stv(o, glm::abs(%s(a))); stv(o2, glm::fract(%s(a))); stv(o3, glm::mod(%s(a), %s(b))); stv(o4, glm::sign(%s(a)));' % (AF, AF, AF, AF, AF))
     addS('a_fconv', [('float', 4)], [('int32_t', 4)], 'stv(o, glm::vec<4,int,glm::aligned_highp>(%s(a)));' % AF, lambda i: [z3.And(z3.Not(is_nan(x)), z3.fpLT(z3.fpAbs(fpof(x)), FPV(2.0 ** 31, 32))) for x in i[0]], '|x| < 2^31, non-NaN')
+    for nm, ct in (('i', 'int32_t'), ('u', 'uint32_t'), ('f', 'float'), ('d', 'double')):
+        for L in (3, 4):        # packed <-> aligned conversion constructors: unaligned source objects must be read with unaligned loads
+            addS('a_conv%d%s' % (L, nm), [(ct, L)], [(ct, L)] * 2, 'struct alignas(16) H { %s pad; glm::vec<%d,%s,glm::packed_highp> p; } h; h.pad = a[0]; h.p = ldv<%d,%s,glm::packed_highp>(a);   /* packed source deliberately at a non-16-byte-aligned address */\n glm::vec<%d,%s,glm::aligned_highp> v(h.p); stv(o, v); H g; g.pad = a[0]; g.p = glm::vec<%d,%s,glm::packed_highp>(v); stv(o2, g.p);' % (ct, L, ct, L, ct, L, ct, L, ct))
     addS('a_index', [('float', 4), ('int', 1)], [('float', 1)], 'auto v = %s(a); o[0] = v[b[0]];' % AF, lambda i: [i[1][0] >= 0, i[1][0] < 4], '0 <= i < 4')
     return u, TS
 SIMD = {isa: _simd_unit(isa, fl) for isa, fl in (('sse2', '-msse2'), ('avx2', '-mavx2'))}
